@@ -107,8 +107,11 @@ TGApply(p, e) ==
                                    ELSE SeqToSet(e.leaves) = {"RuntimeError"})),
                           EarlyFailureReported |-> (childFailedEarly /\ p.ended[c] \in {"ok", "err"})
                                                       => e.res \in {"err", "cancelled", "native"},
+                          \* ... for a caller that was cancelled ONCE: a second, native cancellation can
+                          \* interrupt the shielded wait for the child (anyio cannot shield from it)
                           ChildDoneBeforeCancelledStartReturns |->
-                              (e.res \in {"cancelled", "native"}) => e.cdone = 1,
+                              (e.res \in {"cancelled", "native"}
+                               /\ p.s.natives[e.t] + (IF EffCur(p.s, e.t) THEN 1 ELSE 0) <= 1) => e.cdone = 1,
                           GroupNotCancelledByStartFailure |->
                               \* ... unless something else legitimately cancelled it: another failure,
                               \* a cancelled enclosing scope, or the host being cancelled natively
